@@ -259,9 +259,12 @@ pub fn mk_srat_mem(pd: u32, base: u64, len: u64, flags: &[u8]) -> srat::MemoryAf
 }
 
 pub fn mk_srat_gi(pd: u32, acpi: &Option<([u8; 8], [u8; 4])>, pci: &Bdf, flags: &[u8]) -> srat::GenericInitiator {
+    // both public ways to make a handle: the constructors and the enum variants themselves
     let h = match acpi {
-        Some((hid, uid)) => srat::Handle::new_acpi(*hid, *uid),
-        None => srat::Handle::new_pci(pci.seg, pci.bus, pci.dev, pci.func),
+        Some((hid, uid)) if pd % 2 == 0 => srat::Handle::new_acpi(*hid, *uid),
+        Some((hid, uid)) => srat::Handle::Acpi { hid: *hid, uid: *uid },
+        None if pd % 2 == 0 => srat::Handle::new_pci(pci.seg, pci.bus, pci.dev, pci.func),
+        None => srat::Handle::Pci { segment: pci.seg, bus: pci.bus, device: pci.dev, function: pci.func },
     };
     let mut g = srat::GenericInitiator::new(pd, h);
     for f in flags {
